@@ -1249,3 +1249,32 @@ impl<T: Config> P2PSession<T> {
         }
     }
 }
+
+#[cfg(feature = "verif-hooks")]
+impl<T: Config> P2PSession<T> {
+    /// Read-only snapshot of connection status and internal buffer sizes (verification hook).
+    pub fn verif_snapshot(&self) -> crate::verif_hooks::P2PSnapshot<T::Address> {
+        let mut endpoints = Vec::new();
+        for (addr, ep) in &self.player_reg.remotes {
+            endpoints.push((addr.clone(), false, ep.verif_snapshot()));
+        }
+        for (addr, ep) in &self.player_reg.spectators {
+            endpoints.push((addr.clone(), true, ep.verif_snapshot()));
+        }
+        crate::verif_hooks::P2PSnapshot {
+            connect_status: self
+                .local_connect_status
+                .iter()
+                .map(|c| (c.disconnected, c.last_frame))
+                .collect(),
+            event_queue: self.event_queue.len(),
+            outgoing_local_inputs: self.outgoing_local_inputs.len(),
+            local_checksum_history: self.local_checksum_history.len(),
+            last_confirmed_frame: self.sync_layer.last_confirmed_frame(),
+            last_saved_frame: self.sync_layer.last_saved_frame(),
+            disconnect_frame: self.disconnect_frame,
+            next_spectator_frame: self.next_spectator_frame,
+            endpoints,
+        }
+    }
+}
